@@ -27,12 +27,44 @@ def SPost (cmp : Int → Int → Bool) (s : List Int) : SOp → SRet → List In
   | .fix _, r, s' => r = .unit ∧ s'.Perm s
   | .setFix i v, r, s' => r = .unit ∧ s'.Perm (s.set i v)
   | .popAll, r, s' => s' = [] ∧ ∃ xs, r = .vals xs ∧ xs.Perm s ∧ xs.Pairwise (fun a b => cmp b a = false)
+  | .popAllN k, r, s' => ∃ xs, r = .vals xs ∧ xs.length = min k s.length ∧ (xs ++ s').Perm s ∧
+      xs.Pairwise (fun a b => cmp b a = false) ∧ ∀ x, x ∈ xs → ∀ y, y ∈ s' → cmp y x = false
 
 /-- Along `ops`: no call panics, `Values` is heap-ordered after it, the call did what `SPost` says. -/
 def SliceSteps (cmp : Int → Int → Bool) : List SOp → List Int → Prop
   | [], _ => True
   | op :: ops, s => sPre s op → ∃ s' r, stepS cmp s op = some (s', r) ∧ Heap cmp s' ∧
       SPost cmp s op r s' ∧ SliceSteps cmp ops s'
+
+/-- An interrupted `PopAll` (`k` elements received): `min k len` elements are yielded, sorted, none
+of the remaining ones precedes any of them, `Values` is a heap of exactly the remaining multiset. -/
+theorem slice_popAllK {cmp} (hs : SWO cmp) : ∀ (k : Nat) (s : List Int), Heap cmp s →
+    ∃ s' xs, Slice.popAllK cmp k s = some (s', xs) ∧ Heap cmp s' ∧ xs.length = min k s.length ∧
+      (xs ++ s').Perm s ∧ xs.Pairwise (fun a b => cmp b a = false) ∧
+      ∀ x, x ∈ xs → ∀ y, y ∈ s' → cmp y x = false := by
+  intro k
+  induction k with
+  | zero => intro s h; exact ⟨s, [], rfl, h, by simp, by simp, List.Pairwise.nil, by simp⟩
+  | succ k ih =>
+    intro s h
+    by_cases h0 : s = []
+    · subst h0
+      exact ⟨[], [], by simp [Slice.popAllK, Slice.pop], h, by simp, by simp, List.Pairwise.nil, by simp⟩
+    · obtain ⟨s1, x, hpop, hheap1, hperm1, hmin⟩ := (slice_pop hs s h).2 h0
+      obtain ⟨s2, xs, hrun, hheap2, hlen, hperm, hsorted, hcross⟩ := ih s1 hheap1
+      have hl : s.length = s1.length + 1 := by have := hperm1.length_eq; simp at this; omega
+      have hsub : ∀ y, y ∈ xs ++ s2 → y ∈ s := fun y hy =>
+        hperm1.subset (List.mem_cons_of_mem x (hperm.subset hy))
+      refine ⟨s2, x :: xs, ?_, hheap2, ?_, ?_, ?_, ?_⟩
+      · simp only [Slice.popAllK, hpop, hrun]
+      · simp only [List.length_cons, hlen, hl]; omega
+      · exact (List.Perm.cons x hperm).trans hperm1
+      · refine List.Pairwise.cons ?_ hsorted
+        intro y hy; exact hmin y (hsub y (List.mem_append_left _ hy))
+      · intro x' hx' y hy
+        rcases List.mem_cons.1 hx' with rfl | hx'
+        · exact hmin y (hsub y (List.mem_append_right _ hy))
+        · exact hcross x' hx' y hy
 
 theorem slice_step {cmp} (hs : SWO cmp) (s : List Int) (h : Heap cmp s) (op : SOp) (hpre : sPre s op) :
     ∃ s' r, stepS cmp s op = some (s', r) ∧ Heap cmp s' ∧ SPost cmp s op r s' := by
@@ -78,6 +110,9 @@ theorem slice_step {cmp} (hs : SWO cmp) (s : List Int) (h : Heap cmp s) (op : SO
   | popAll =>
     obtain ⟨xs, h1, h2, h3⟩ := slice_popAll hs s.length s rfl h
     exact ⟨[], .vals xs, by simp [stepS, h1], heap_nil cmp, rfl, xs, rfl, h2, h3⟩
+  | popAllN k =>
+    obtain ⟨s', xs, h1, h2, h3, h4, h5, h6⟩ := slice_popAllK hs k s h
+    exact ⟨s', .vals xs, by simp [stepS, h1], h2, xs, rfl, h3, h4, h5, h6⟩
 
 theorem slice_steps {cmp} (hs : SWO cmp) : ∀ (ops : List SOp) (s : List Int), Heap cmp s →
     SliceSteps cmp ops s := by
@@ -88,5 +123,62 @@ theorem slice_steps {cmp} (hs : SWO cmp) : ∀ (ops : List SOp) (s : List Int), 
     intro s h hpre
     obtain ⟨s', r, h1, h2, h3⟩ := slice_step hs s h op hpre
     exact ⟨s', r, h1, h2, h3, ih s' h2⟩
+
+/-! ### an interrupted `PopAll` IS `k` `Pop`s -/
+
+/-- run an op list, keeping only `Values` -/
+def runS (cmp : Int → Int → Bool) : List SOp → List Int → Option (List Int)
+  | [], s => some s
+  | op :: ops, s =>
+    match stepS cmp s op with
+    | none => none
+    | some (s', _) => runS cmp ops s'
+
+theorem slice_pop_false {cmp} {s s1 : List Int} {x : Int} (h : Slice.pop cmp s = some (s1, x, false)) :
+    s = [] ∧ s1 = [] := by
+  cases s with
+  | nil => simp [Slice.pop] at h; exact ⟨rfl, h.1⟩
+  | cons a t =>
+    exfalso
+    simp only [Slice.pop] at h
+    split at h
+    · simp at *; omega
+    · split at h
+      · split at h <;> simp at h
+      · split at h
+        · cases h
+        · split at h
+          · cases h
+          · split at h <;> simp at h
+
+theorem runS_pops_nil (cmp : Int → Int → Bool) : ∀ k, runS cmp (List.replicate k .pop) [] = some [] := by
+  intro k
+  induction k with
+  | zero => rfl
+  | succ k ih => simp [List.replicate_succ, runS, stepS, Slice.pop, ih]
+
+/-- `Values` after `PopAll` was left at the `k`-th element = `Values` after `k` calls of `Pop`. -/
+theorem slice_popAllN_is_pops (cmp : Int → Int → Bool) : ∀ (k : Nat) (s : List Int),
+    (stepS cmp s (.popAllN k)).map (fun p => p.1) = runS cmp (List.replicate k .pop) s := by
+  intro k
+  induction k with
+  | zero => intro s; simp [stepS, Slice.popAllK, runS]
+  | succ k ih =>
+    intro s
+    have ih' := ih
+    simp only [stepS] at ih' ⊢
+    simp only [List.replicate_succ, runS, stepS, Slice.popAllK]
+    cases hp : Slice.pop cmp s with
+    | none => simp
+    | some p =>
+      obtain ⟨s1, x, ok⟩ := p
+      cases ok with
+      | false =>
+        obtain ⟨_, rfl⟩ := slice_pop_false hp
+        simp [runS_pops_nil]
+      | true =>
+        simp only [Option.map_some]
+        rw [← ih' s1]
+        cases Slice.popAllK cmp k s1 <;> simp
 
 end Golib.C04
